@@ -152,7 +152,8 @@ def unary_rule(m, rid):
     c = ctor("R")
     for pname, samples in (("not_op", [(".not. a", (".NOT.", Node("R", "a"))), (".NOT.a", (".NOT.", Node("R", "a"))), ("a .not. b", None), (".not.", None), ("", None)]),
                            ("add_op", [("- a", ("-", Node("R", "a"))), ("+a*b", ("+", Node("R", "a*b"))), ("a - b", None), ("-", None)]),
-                           ("defined_unary_op", [(".foo. x", (".FOO.", Node("R", "x"))), ("x .foo. y", None)])):
+                           ("defined_unary_op", [(".foo. x", (".FOO.", Node("R", "x"))), ("x .foo. y", None),
+                                                 (".u. .true.", (".U.", Node("R", ".true."))), (".u. .false. * 2", (".U.", Node("R", ".false. * 2")))])):
         ent = pats.get(pname)
         if ent is None:
             r.error("pattern %s vanished" % pname)
@@ -272,4 +273,56 @@ def string_rules(m, rid):
         if not ok:
             r.fail("%s|%r|%s" % (eng, shown[-1], sorted(kw)), "%s.match(%s%s) gives %r, expected %r" % (
                 eng, ", ".join(repr(a)[:30] for a in shown), "".join(", %s=%s" % kv for kv in sorted(kw.items())), got, want), m.loc(fs[eng]))
+    return r
+
+
+def pattern_split_rule(m, rid):
+    r = RuleResult(rid, "Pattern.rsplit / Pattern.lsplit, decided as tables: the string is cut at the last / first operator occurrence and "
+                        "the three pieces are returned unchanged apart from surrounding blanks")
+    r.floor = 10
+    pk = m.key("Pattern", "fparser.two.pattern_tools")
+    fr, fl_ = m.method(pk, "rsplit"), m.method(pk, "lsplit")
+    if fr is None or fl_ is None:
+        r.error("Pattern.rsplit/lsplit vanished")
+        return r
+    pats = m.snap["patterns"]
+
+    def pobj(name):
+        ent = pats[name]
+        # the engines are handed pattern.<name>.named(): the pattern wrapped in one (named) capture group
+        rx = re.compile("(?P<op>%s)" % ent["pattern"], ent["flags"])
+        full = re.compile(r"\A(?:" + ent["pattern"] + r")\Z", ent["flags"])
+        o = PE.Obj({})
+        o.fields["get_compiled"] = lambda: rx
+        o.fields["__abs__"] = lambda: PE.Obj({"match": lambda s_: full.match(s_)})
+        return o
+    ev = PE.Evaluator({})
+    cases = [
+        ("rsplit", "add_op", "a + b - c", ("a + b", "-", "c")),
+        ("rsplit", "add_op", "a+b", ("a", "+", "b")),
+        ("rsplit", "add_op", "abc", None),
+        ("rsplit", "mult_op", "a * b / c", ("a * b", "/", "c")),
+        ("rsplit", "mult_op", "a ** b", None),
+        ("rsplit", "and_op", "a .and. b .AND. c", ("a .and. b", ".AND.", "c")),
+        ("rsplit", "defined_binary_op", "a .x. b", ("a", ".x.", "b")),
+        ("rsplit", "defined_binary_op", "a .and. .not. b .x. c", ("a .and. .not. b", ".x.", "c")),
+        ("rsplit", "defined_binary_op", ".true. .x. b", (".true.", ".x.", "b")),
+        ("rsplit", "rel_op", "a <= b", ("a", "<=", "b")),
+        ("rsplit", "concat_op", "a // b // c", ("a // b", "//", "c")),
+        ("lsplit", "power_op", "a ** b ** c", ("a", "**", "b ** c")),
+        ("lsplit", "power_op", "a * b", None),
+    ]
+    for meth, pname, text, want in cases:
+        r.instances += 1
+        if pname not in pats:
+            r.error("pattern %s vanished" % pname)
+            continue
+        f = fr if meth == "rsplit" else fl_
+        got = run(ev, f, [pobj(pname), text])
+        if isinstance(got, list):
+            got = tuple(got)
+        ok = (not isinstance(got, PE.PyRaise)) and got == want
+        r.ob(ok, "pattern.%s.%s(%r) -> %r" % (pname, meth, text, got))
+        if not ok:
+            r.fail("Pattern.%s|%s|%s" % (meth, pname, text), "pattern.%s.%s(%r) gives %r, expected %r" % (pname, meth, text, got, want), m.loc(f))
     return r
